@@ -17,8 +17,8 @@ EXPLANATION = (
     "default on failure, no registry is ever keyed by that default, and the path then has no effect; E2 - the type-nibble "
     "lookup is guarded (miss -> abort, nothing else), broker-bound and reserved types only abort; E3 - hazards on values "
     "derived from the packet outside any catching try: unbounded index into a constant table, registry lookup by network "
-    "identifier without KeyError handler, method call on a handle that can be None, cancel() of a handle that already "
-    "fired, callback()/errback() without a .called test on an entry of a registry that can hold an already fired Deferred; a "
+    "identifier without KeyError handler, method call on a handle that can be None (unless a handler around it catches the AttributeError), cancel() of a handle that already "
+    "fired or that was cancelled earlier and left stored, callback()/errback() without a .called test on an entry of a registry that can hold an already fired Deferred; a "
     "constant sequence of names indexed by a packet value is walked entry by entry with an IndexError edge; no abstract path of these entry points leaves by exception; E4 - every self./state/factory call resolves and "
     "no name is undefined on these paths; E5 - a packet that does not belong to the current state/profile, and a failed "
     "decode, cause no delivery, no Deferred success, no registry change. Does not decide value-level decoding faults that "
@@ -236,6 +236,12 @@ def check(ctx):
             ctx.ob("E3", "%s no cancel() of a handle that already fired" % cq, False, where=where(e), function=e.func,
                    construct="%s/fired-handle/%s/%s" % (ent.func.qual, ".".join(loc), short(e.func)),
                    msg="%s leaves its fired handle in %s and %s cancels it: AlreadyCalled escapes" % (short(ent.func.qual), ".".join(loc), short(e.func)))
+        for tr, e, loc, tr2, e2 in hd.cancelled_kept():
+            ctx.ob("E3", "%s no cancel() of a handle that was cancelled before (%s)" % (cq, tr.label()), False, where=where(e), function=e.func,
+                   construct="%s/cancelled-handle-kept/%s" % (e.func, ".".join(loc)),
+                   msg="%s cancels the handle in %s and leaves it stored; the next connectionLost (%s) - reached from dataReceived() or a timer when "
+                       "the library itself aborts the connection - finds it not None and cancels it again: AlreadyCancelled escapes" % (
+                           tr.label(), ".".join(loc), where(e2)))
         for tr, f, rg, (tr0, st0, rg0) in prefired_fires(cat):
             if tr.kind in ("NET", "TIMER", "LOSS"):
                 ctx.ob("E3", "%s no second firing of an already fired Deferred (%s)" % (cq, tr.label()), False, where=where(f), function=f.func,
